@@ -97,6 +97,12 @@ func init() {
 	add("C11", "C12", "C12.R2~^(sumWhisperFile|globItems):")
 	// the listing shows stored values and slot times as they are
 	add("C09", "C18", "C18.R1")
+	// the method names the library prints are the names the -agg-method flag takes back
+	add("C19", "C02", "C02.R2~^aggregationMethodValue")
+	// the text output of sum shows stored values and slot times as they are
+	add("C10", "C18", "C18.R1")
+	// what the handlers stream is decoded by the clients: encoder and decoder agree field by field
+	add("C12", "C14", "C14.R1")
 	// a layout that does not match is refused by sum; copy and sum-copy write every selected archive
 	add("C16", "C10", "C10.R2")
 	add("C16", "C08", "C08.R9~every-archive")
